@@ -1,4 +1,276 @@
 package main
 
-// conformance re-executes explored paths on the full SimApp (filled in later).
-func conformance(e *Engine, n int) (int, int, []string) { return 0, 0, nil }
+import (
+	"bytes"
+	"fmt"
+	"runtime"
+	"runtime/debug"
+	"sort"
+	"sync"
+
+	abci "github.com/tendermint/tendermint/abci/types"
+	tmbytes "github.com/tendermint/tendermint/libs/bytes"
+	tmproto "github.com/tendermint/tendermint/proto/tendermint/types"
+
+	sdk "github.com/cosmos/cosmos-sdk/types"
+	authtypes "github.com/cosmos/cosmos-sdk/x/auth/types"
+	minttypes "github.com/cosmos/cosmos-sdk/x/mint/types"
+
+	service "github.com/irismod/service"
+	simapp "github.com/irismod/service/app"
+	servicekeeper "github.com/irismod/service/keeper"
+	st "github.com/irismod/service/types"
+)
+
+// Conformance with the full application (DESIGN 3.6): explored paths are re-executed on the repository's SimApp
+// — IAVL stores, BeginBlock/EndBlock through the module manager, Commit every block, messages on a
+// CacheContext of the deliver state — and after every block the service store dump and all tracked balances
+// (except the fee collector, which the distribution module sweeps) must equal the explorer's.
+
+type simWorld struct {
+	app     *simapp.SimApp
+	ctx     sdk.Context
+	handler sdk.Handler
+	height  int64
+	time    int64
+}
+
+func newSimWorld(sc *Scenario) *simWorld {
+	app := simapp.Setup(false)
+	app.Commit()
+	w := &simWorld{app: app, height: H0, time: 0}
+	w.begin()
+	// the scenario's in-memory keeper configuration
+	k := app.ServiceKeeper
+	for _, m := range sc.Rig.CallbackModules {
+		_ = k.RegisterResponseCallback(m, func(ctx sdk.Context, id tmbytes.HexBytes, outs []string, err error) {})
+		_ = k.RegisterStateCallback(m, func(ctx sdk.Context, id tmbytes.HexBytes, cause string) {})
+	}
+	for _, ms := range sc.Rig.ModuleServices {
+		spec := ms
+		_ = k.RegisterModuleService(spec.Module, &st.ModuleService{ServiceName: spec.Service, Provider: spec.Provider,
+			ReuquestService: func(ctx sdk.Context, input string) (string, string) { return spec.Result, spec.Output }})
+	}
+	w.handler = service.NewHandler(k)
+	// genesis of the explored world: params, funded accounts
+	k.SetParams(w.ctx, sc.Params.Params())
+	for _, f := range sc.Funds {
+		if f.Amt > 0 {
+			c := sdk.NewCoins(sdk.NewInt64Coin(denom, f.Amt))
+			if err := app.BankKeeper.MintCoins(w.ctx, minttypes.ModuleName, c); err != nil {
+				panic(err)
+			}
+			if err := app.BankKeeper.SendCoinsFromModuleToAccount(w.ctx, minttypes.ModuleName, f.Addr, c); err != nil {
+				panic(err)
+			}
+		}
+	}
+	return w
+}
+
+func (w *simWorld) begin() {
+	hdr := tmproto.Header{ChainID: "", Height: w.height, Time: T0.Add(timeSec(int(w.time)))}
+	w.app.BeginBlock(abci.RequestBeginBlock{Header: hdr})
+	w.ctx = w.app.BaseApp.NewContext(false, hdr)
+}
+
+func (w *simWorld) exec(a Action) (outcome string) {
+	defer func() {
+		if p := recover(); p != nil {
+			outcome = "panic"
+			_ = debug.Stack()
+		}
+	}()
+	switch {
+	case a.Kind == "E":
+		w.app.EndBlock(abci.RequestEndBlock{Height: w.height})
+		w.app.Commit()
+		w.height++
+		w.time++
+		w.begin()
+		return "ok"
+	case a.Mod != nil:
+		cctx, write := w.ctx.CacheContext()
+		cctx = cctx.WithValue(st.TxHash, a.TxHash).WithValue(st.MsgIndex, int64(0))
+		if err := a.Mod(cctx, w.app.ServiceKeeper); err != nil {
+			return "error"
+		}
+		write()
+		return "ok"
+	default:
+		if err := a.Msg.ValidateBasic(); err != nil {
+			return "stateless-reject"
+		}
+		cctx, write := w.ctx.CacheContext()
+		cctx = cctx.WithValue(st.TxHash, a.TxHash).WithValue(st.MsgIndex, int64(0))
+		if _, err := w.handler(cctx, a.Msg); err != nil {
+			return "error"
+		}
+		write()
+		return "ok"
+	}
+}
+
+func (w *simWorld) serviceDump() []KV {
+	store := w.ctx.KVStore(w.app.GetKey(st.StoreKey))
+	it := store.Iterator(nil, nil)
+	defer it.Close()
+	var out []KV
+	for ; it.Valid(); it.Next() {
+		out = append(out, KV{append([]byte{}, it.Key()...), append([]byte{}, it.Value()...)})
+	}
+	return out
+}
+
+func kvEqual(a, b []KV) (bool, string) {
+	am := map[string][]byte{}
+	for _, kv := range a {
+		am[string(kv.K)] = kv.V
+	}
+	bm := map[string][]byte{}
+	for _, kv := range b {
+		bm[string(kv.K)] = kv.V
+		if v, ok := am[string(kv.K)]; !ok {
+			return false, fmt.Sprintf("key %X only in the full application", kv.K)
+		} else if !bytes.Equal(v, kv.V) {
+			return false, fmt.Sprintf("key %X differs", kv.K)
+		}
+	}
+	for _, kv := range a {
+		if _, ok := bm[string(kv.K)]; !ok {
+			return false, fmt.Sprintf("key %X only in the explorer", kv.K)
+		}
+	}
+	return true, ""
+}
+
+func (w *simWorld) compare(rig *Rig, s *State, where string) string {
+	if ok, d := kvEqual(s.Stores[stService], w.serviceDump()); !ok {
+		return where + ": service store: " + d
+	}
+	rctx := rig.ReadCtx(s)
+	for _, a := range balanceUniverse() {
+		if bytes.Equal(a, authtypes.NewModuleAddress(authtypes.FeeCollectorName)) {
+			continue
+		}
+		x := rig.bk.GetBalance(rctx, a, denom).Amount
+		y := w.app.BankKeeper.GetBalance(w.ctx, a, denom).Amount
+		if !x.Equal(y) {
+			return fmt.Sprintf("%s: balance of %s: explorer %s, full application %s", where, nameOf(a), x, y)
+		}
+	}
+	return ""
+}
+
+// conformOne replays one explored trace on both the explorer's rig and the full application.
+func conformOne(sc *Scenario, trace []string) (blocks int, errStr string) {
+	defer func() {
+		if p := recover(); p != nil {
+			errStr = fmt.Sprintf("panic during conformance replay: %v", p)
+		}
+	}()
+	rig := NewRig(sc.Rig)
+	s := rig.Genesis(sc.Params, sc.Funds, sc.Extra)
+	w := newSimWorld(sc)
+	step := func(a Action) string {
+		post, res := Exec(rig, sc, s, a)
+		out := w.exec(a)
+		want := res.Outcome()
+		if out != want {
+			return fmt.Sprintf("action %s: explorer %s, full application %s", a.Name, want, out)
+		}
+		s = post
+		if a.Kind == "E" {
+			blocks++
+			if d := w.compare(rig, s, "after block "+fmt.Sprint(s.Height-1)); d != "" {
+				return d
+			}
+		}
+		return ""
+	}
+	for _, a := range sc.Setup {
+		if d := step(a); d != "" {
+			return blocks, "setup: " + d
+		}
+	}
+	s.Msgs = 0
+	for i, name := range trace {
+		v := rig.Decode(s)
+		var act *Action
+		for _, a := range sc.Enabled(v) {
+			if a.Name == name {
+				aa := a
+				act = &aa
+				break
+			}
+		}
+		if act == nil {
+			return blocks, fmt.Sprintf("step %d: action %q not enabled", i, name)
+		}
+		if d := step(*act); d != "" {
+			return blocks, fmt.Sprintf("trace %v: %s", trace[:i+1], d)
+		}
+	}
+	if d := w.compare(rig, s, "at the end of the trace"); d != "" {
+		return blocks, fmt.Sprintf("trace %v: %s", trace, d)
+	}
+	return blocks, ""
+}
+
+// conformance re-executes n explored paths (the deepest ones, evenly spread) on the full SimApp.
+func conformance(e *Engine, n int) (int, int, []string) {
+	// candidate leaves: nodes of the deepest levels
+	var ids []int32
+	maxd := int16(0)
+	for _, nd := range e.nodes {
+		if nd.depth > maxd {
+			maxd = nd.depth
+		}
+	}
+	for i, nd := range e.nodes {
+		if nd.depth >= maxd-1 && nd.depth > 0 {
+			ids = append(ids, int32(i))
+		}
+	}
+	if len(ids) == 0 {
+		return 0, 0, nil
+	}
+	sort.Slice(ids, func(i, j int) bool { return ids[i] < ids[j] })
+	var pick []int32
+	if len(ids) <= n {
+		pick = ids
+	} else {
+		for i := 0; i < n; i++ {
+			pick = append(pick, ids[i*len(ids)/n])
+		}
+	}
+	var mu sync.Mutex
+	var errs []string
+	done, blocks := 0, 0
+	var wg sync.WaitGroup
+	ch := make(chan int32, len(pick))
+	for _, id := range pick {
+		ch <- id
+	}
+	close(ch)
+	for w := 0; w < runtime.NumCPU(); w++ {
+		wg.Add(1)
+		go func() {
+			defer wg.Done()
+			for id := range ch {
+				b, es := conformOne(e.Sc, e.trace(id))
+				mu.Lock()
+				done++
+				blocks += b
+				if es != "" && len(errs) < 5 {
+					errs = append(errs, es)
+				}
+				mu.Unlock()
+			}
+		}()
+	}
+	wg.Wait()
+	return done, blocks, errs
+}
+
+var _ = servicekeeper.Keeper{}
